@@ -54,7 +54,8 @@ def _vec_cases(draw):
     return dict(s=s, thr=thr, tg=dict(shape=list(shape), flat=tg), cfg=draw(gen.CONFIG),
                 scalar_kind=draw(st.sampled_from(["py", "np", "0d", "int"])),
                 layout=draw(st.sampled_from(LAYOUTS)),
-                thr_dtype=draw(st.sampled_from([None, None, "float32", "float16"])))
+                thr_dtype=draw(st.sampled_from([None, None, "float32", "float16"])),
+                readonly=draw(st.booleans()))
 
 
 def _scalar(x, kind):
@@ -84,6 +85,11 @@ def check_vectorised(case):
             thr = thr.astype(case["thr_dtype"])
         case = dict(case, thr=dict(case["thr"], flat=[float(x) for x in thr.reshape(-1).tolist()]))
     thr = as_layout(thr, case.get("layout", "C"))
+    if case.get("readonly"):
+        thr = thr.copy() if not thr.flags.owndata and thr.base is None else thr
+        thr.setflags(write=False)  # arrays the caller cannot (or must not) have written to
+        pos.setflags(write=False)
+        neg.setflags(write=False)
     thr0 = thr.copy()
     kind = case["scalar_kind"]
     # confusion matrices
@@ -109,6 +115,8 @@ def check_vectorised(case):
     # threshold setting
     Y = tuple(case["tg"]["shape"])
     tg = as_layout(gen.np_array(case["tg"]["flat"], Y), case.get("layout", "C"))
+    if case.get("readonly"):
+        tg.setflags(write=False)
     tg0 = tg.copy()
     for m in METRICS:
         if not relevant_scores(m, s["pos"], s["neg"]):
